@@ -103,7 +103,8 @@ ItemEv ==
 \* ---- the consumer got an error
 ErrorEv ==
   /\ Step("error")
-  /\ IF kind = "chunks" THEN
+  /\ IF Ev.kind = "panic" THEN Flag("C08 ERR: the reader panicked instead of yielding the requested bytes or returning an error")
+     ELSE IF kind = "chunks" THEN
         IF s.res # "err" THEN Flag("C08 ERR: error reported although the retry budget was not exhausted and no body ended early")
         ELSE IF ci # Len(s.items) + 1 THEN Flag("C08 ERR: chunks that were completely received were not delivered before the error")
         ELSE NoFlag
